@@ -51,35 +51,99 @@ func c09Run(r *Run) {
 		return
 	}
 	var fChan, fClosed *types.Var
+	var fPhase *types.Var // an enum-typed state field (open / closed / not built) instead of a bool flag
 	signalChans := map[*types.Var]bool{}
 	hasMutex, hasOnce := false, false
-	for i := 0; i < st.NumFields(); i++ {
-		f := st.Field(i)
-		if ct, ok := f.Type().Underlying().(*types.Chan); ok {
-			if isNamed(ct.Elem(), modPath+"/data", "Value") {
-				if fChan == nil {
-					fChan = f
+	var scanFields func(st *types.Struct, depth int)
+	scanFields = func(st *types.Struct, depth int) {
+		for i := 0; i < st.NumFields(); i++ {
+			f := st.Field(i)
+			if ct, ok := f.Type().Underlying().(*types.Chan); ok {
+				if isNamed(ct.Elem(), modPath+"/data", "Value") {
+					if fChan == nil {
+						fChan = f
+					}
+				} else {
+					signalChans[f] = true // e.g. a done channel closed by Close
 				}
-			} else {
-				signalChans[f] = true // e.g. a done channel closed by Close
+			}
+			if b, ok := f.Type().Underlying().(*types.Basic); ok {
+				if b.Kind() == types.Bool {
+					fClosed = f
+				} else if b.Info()&types.IsInteger != 0 && namedOf(f.Type()) != nil && namedOf(f.Type()).Obj().Pkg() == pkg.Types {
+					fPhase = f
+				}
+			}
+			if isNamed(f.Type(), "sync/atomic", "Bool") {
+				fClosed = f
+			}
+			if isNamed(f.Type(), "sync", "Mutex") || isNamed(f.Type(), "sync", "RWMutex") {
+				hasMutex = true
+			}
+			if isNamed(f.Type(), "sync", "Once") {
+				hasOnce = true
+			}
+			// the channels may be grouped in a small struct of this package (c.pipe.values)
+			if depth == 0 {
+				if nt := namedOf(f.Type()); nt != nil && nt.Obj().Pkg() == pkg.Types {
+					if inner, ok := nt.Underlying().(*types.Struct); ok {
+						scanFields(inner, depth+1)
+					}
+				}
 			}
 		}
-		if b, ok := f.Type().Underlying().(*types.Basic); ok && b.Kind() == types.Bool {
-			fClosed = f
-		}
-		if isNamed(f.Type(), "sync/atomic", "Bool") {
-			fClosed = f
-		}
-		if isNamed(f.Type(), "sync", "Mutex") || isNamed(f.Type(), "sync", "RWMutex") {
-			hasMutex = true
-		}
-		if isNamed(f.Type(), "sync", "Once") {
-			hasOnce = true
-		}
 	}
+	scanFields(st, 0)
 	if fChan == nil {
-		r.fail("channel.Channel has no chan field")
+		r.fail("channel.Channel holds no chan of data.Value (directly or in a struct field)")
 		return
+	}
+	if fClosed != nil {
+		fPhase = nil // a boolean flag is the state; an integer field next to it is something else
+	}
+	// the value of the enum that means "open": the constant stored where the data channel is made
+	var openConst types.Object
+	isZeroConst := func(o types.Object) bool {
+		c, ok := o.(*types.Const)
+		return ok && c.Val().String() == "0"
+	}
+	if fPhase != nil {
+		for _, fd := range funcDecls(pkg) {
+			makes := false
+			ast.Inspect(fd.Body, func(n ast.Node) bool {
+				if c, ok := n.(*ast.CallExpr); ok {
+					if id, ok := ast.Unparen(c.Fun).(*ast.Ident); ok && id.Name == "make" && len(c.Args) >= 1 {
+						if ct, ok := info.TypeOf(c.Args[0]).Underlying().(*types.Chan); ok && isNamed(ct.Elem(), modPath+"/data", "Value") {
+							makes = true
+						}
+					}
+				}
+				return true
+			})
+			if !makes {
+				continue
+			}
+			ast.Inspect(fd.Body, func(n ast.Node) bool {
+				if as, ok := n.(*ast.AssignStmt); ok && len(as.Lhs) == len(as.Rhs) {
+					for i, l := range as.Lhs {
+						if se, ok := ast.Unparen(l).(*ast.SelectorExpr); ok {
+							if sel, ok := info.Selections[se]; ok && sel.Obj() == fPhase {
+								if id, ok := ast.Unparen(as.Rhs[i]).(*ast.Ident); ok {
+									if c, ok := info.Uses[id].(*types.Const); ok {
+										openConst = c
+									}
+								}
+							}
+						}
+					}
+				}
+				return true
+			})
+		}
+		if openConst == nil {
+			r.fail("channel.Channel: the state field %s is never set where the data channel is made: the value that means 'open' cannot be identified", fPhase.Name())
+			return
+		}
 	}
 	fieldOf := func(e ast.Expr) *types.Var {
 		if se, ok := ast.Unparen(e).(*ast.SelectorExpr); ok {
@@ -277,6 +341,9 @@ func c09Run(r *Run) {
 				if fClosed != nil && fieldOf(as.Rhs[i]) == fClosed {
 					closedCopy[o] = true
 				}
+				if fPhase != nil && fieldOf(as.Rhs[i]) == fPhase {
+					closedCopy[o] = true
+				}
 				if c, ok := ast.Unparen(as.Rhs[i]).(*ast.CallExpr); ok {
 					if _, isH := chanHelper[f0(info, c)]; isH {
 						f := f0(info, c)
@@ -294,14 +361,26 @@ func c09Run(r *Run) {
 		if fieldOf(e) == fChan {
 			return true
 		}
-		if id, ok := ast.Unparen(e).(*ast.Ident); ok {
-			return chanAlias[info.Uses[id]]
+		if id, ok := ast.Unparen(e).(*ast.Ident); ok && chanAlias[info.Uses[id]] {
+			return true
+		}
+		// any expression of type chan data.Value in this package denotes the one data channel
+		// (a local copy, a field of a snapshot struct, a parameter)
+		if t := info.TypeOf(e); t != nil {
+			if ct, ok := t.Underlying().(*types.Chan); ok && isNamed(ct.Elem(), modPath+"/data", "Value") {
+				return true
+			}
 		}
 		return false
 	}
 	isSignalExpr := func(e ast.Expr) bool {
 		if f := fieldOf(e); f != nil && signalChans[f] {
 			return true
+		}
+		if t := info.TypeOf(e); t != nil {
+			if ct, ok := t.Underlying().(*types.Chan); ok && !isNamed(ct.Elem(), modPath+"/data", "Value") {
+				return true
+			}
 		}
 		if id, ok := ast.Unparen(e).(*ast.Ident); ok {
 			o := info.Uses[id]
@@ -327,6 +406,98 @@ func c09Run(r *Run) {
 			return false
 		}
 		return (be.Op == token.NEQ && truth) || (be.Op == token.EQL && !truth)
+	}
+
+	// isState: the state field itself or a local copy of it
+	isState := func(e ast.Expr) bool {
+		if f := fieldOf(e); f != nil && (f == fClosed || (fPhase != nil && f == fPhase)) {
+			return true
+		}
+		if id, ok := ast.Unparen(e).(*ast.Ident); ok && closedCopy[info.Uses[id]] {
+			return true
+		}
+		return false
+	}
+	constOf := func(e ast.Expr) types.Object {
+		switch x := ast.Unparen(e).(type) {
+		case *ast.Ident:
+			if c, ok := info.Uses[x].(*types.Const); ok {
+				return c
+			}
+		case *ast.SelectorExpr:
+			if c, ok := info.Uses[x.Sel].(*types.Const); ok {
+				return c
+			}
+		}
+		return nil
+	}
+	// stateTest: what the outcome `truth` of condition e says about the channel: +1 it is open,
+	// -1 it is not open (closed or never built), 0 nothing
+	stateTest := func(e ast.Expr, truth bool) int {
+		e = ast.Unparen(e)
+		if fPhase == nil {
+			if isState(e) {
+				if truth {
+					return -1
+				}
+				return +1
+			}
+			// atomic: c.closed.Load()
+			if c, ok := e.(*ast.CallExpr); ok {
+				if se, ok := ast.Unparen(c.Fun).(*ast.SelectorExpr); ok && fClosed != nil && fieldOf(se.X) == fClosed && se.Sel.Name == "Load" {
+					if truth {
+						return -1
+					}
+					return +1
+				}
+			}
+			return 0
+		}
+		be, ok := e.(*ast.BinaryExpr)
+		if !ok || (be.Op != token.EQL && be.Op != token.NEQ) {
+			return 0
+		}
+		var k types.Object
+		switch {
+		case isState(be.X):
+			k = constOf(be.Y)
+		case isState(be.Y):
+			k = constOf(be.X)
+		}
+		if k == nil {
+			return 0
+		}
+		holds := (be.Op == token.EQL) == truth // state == k on this branch
+		switch {
+		case k == openConst && holds:
+			return +1
+		case k == openConst:
+			return -1
+		case holds:
+			return -1
+		}
+		return 0
+	}
+	// uninitTest: the condition (when true) says that the channel was never built
+	uninitTest := func(e ast.Expr) bool {
+		be, ok := ast.Unparen(e).(*ast.BinaryExpr)
+		if !ok || be.Op != token.EQL {
+			return false
+		}
+		if exprStr(be.Y) == "nil" && isChanExpr(be.X) {
+			return true
+		}
+		if fPhase != nil {
+			var k types.Object
+			switch {
+			case isState(be.X):
+				k = constOf(be.Y)
+			case isState(be.Y):
+				k = constOf(be.X)
+			}
+			return k != nil && k != openConst && isZeroConst(k)
+		}
+		return false
 	}
 
 	// who may touch the chan field
@@ -407,6 +578,19 @@ func c09Run(r *Run) {
 				if se, ok := ast.Unparen(d.Call.Fun).(*ast.SelectorExpr); ok && (se.Sel.Name == "Unlock" || se.Sel.Name == "RUnlock") {
 					found = true
 				}
+				// defer func() { c.mu.Unlock() }()
+				if lit, ok := ast.Unparen(d.Call.Fun).(*ast.FuncLit); ok {
+					ast.Inspect(lit.Body, func(m ast.Node) bool {
+						if c, ok := m.(*ast.CallExpr); ok {
+							if se, ok := ast.Unparen(c.Fun).(*ast.SelectorExpr); ok && (se.Sel.Name == "Unlock" || se.Sel.Name == "RUnlock") {
+								if isNamed(info.TypeOf(se.X), "sync", "Mutex") || isNamed(info.TypeOf(se.X), "sync", "RWMutex") {
+									found = true
+								}
+							}
+						}
+						return true
+					})
+				}
 			}
 			return true
 		})
@@ -448,8 +632,13 @@ func c09Run(r *Run) {
 		h.Equal = func(a, b State) bool { return *a.(*c09State) == *b.(*c09State) }
 		h.Cond = func(e ast.Expr, truth bool, st State) State {
 			s := st.(*c09State)
-			if fClosed != nil && fieldOf(e) == fClosed && !truth {
+			switch stateTest(e, truth) {
+			case +1:
 				s.closedOK = true
+			case -1:
+				if fieldOf(e) != nil || fPhase != nil {
+					s.nilArm = true
+				}
 			}
 			if isClosedNilTest(e, truth) {
 				s.closedOK = true // the helper that produced the alias answers nil for a closed channel
@@ -457,16 +646,18 @@ func c09Run(r *Run) {
 			if isClosedNilTest(e, !truth) {
 				s.nilArm = true
 			}
-			if fClosed != nil && fieldOf(e) == fClosed && truth {
-				s.nilArm = true
-			}
-			if id, ok := ast.Unparen(e).(*ast.Ident); ok && closedCopy[info.Uses[id]] && !truth {
-				s.closedOK = true // a copy of the flag taken earlier was false
-			}
-			// atomic: c.closed.Load()
-			if c, ok := ast.Unparen(e).(*ast.CallExpr); ok {
-				if se, ok := ast.Unparen(c.Fun).(*ast.SelectorExpr); ok && fClosed != nil && fieldOf(se.X) == fClosed && se.Sel.Name == "Load" && !truth {
-					s.closedOK = true
+			return s
+		}
+		h.CaseMatch = func(tag, val ast.Expr, truth bool, st State) State {
+			s := st.(*c09State)
+			if fPhase != nil && isState(tag) {
+				if k := constOf(val); k != nil {
+					switch {
+					case k == openConst && truth:
+						s.closedOK = true
+					case k == openConst && !truth, k != openConst && truth:
+						s.nilArm = true
+					}
 				}
 			}
 			return s
@@ -576,6 +767,9 @@ func c09Run(r *Run) {
 						flagAccess = append(flagAccess, x.Pos())
 					}
 				}
+				if fPhase != nil && fieldOf(x) == fPhase && !s.locked {
+					flagAccess = append(flagAccess, x.Pos())
+				}
 			}
 			return s
 		}
@@ -597,6 +791,9 @@ func c09Run(r *Run) {
 						if i < len(as.Rhs) && exprStr(as.Rhs[i]) != "true" {
 							s.closedOK = false
 						}
+					}
+					if fPhase != nil && fieldOf(l) == fPhase && i < len(as.Rhs) && constOf(as.Rhs[i]) == openConst {
+						s.closedOK = false // re-opened: what was observed before no longer holds
 					}
 				}
 			}
@@ -690,7 +887,7 @@ func c09Run(r *Run) {
 			}
 			mentions := false
 			ast.Inspect(ifs.Cond, func(m ast.Node) bool {
-				if e, ok := m.(ast.Expr); ok && fClosed != nil && fieldOf(e) == fClosed {
+				if e, ok := m.(ast.Expr); ok && isState(e) {
 					mentions = true
 				}
 				return true
@@ -812,10 +1009,7 @@ func c09Run(r *Run) {
 						}
 						return false
 					case *ast.IfStmt:
-						nilTest := false
-						if be, ok := ast.Unparen(x.Cond).(*ast.BinaryExpr); ok && be.Op == token.EQL && exprStr(be.Y) == "nil" && isChanExpr(be.X) {
-							nilTest = true
-						}
+						nilTest := uninitTest(x.Cond)
 						visit(x.Body, inDrainDefault, inNilTest || nilTest)
 						if x.Else != nil {
 							visit(x.Else, inDrainDefault, inNilTest)
@@ -976,7 +1170,13 @@ func c09Run(r *Run) {
 		}
 	}
 	r.curRule = "C09-SYNC"
-	if fClosed == nil {
+	if fClosed == nil && fPhase != nil {
+		if len(allFlagAccess) == 0 {
+			r.ok("Channel.closed", fPhase.Pos(), "every access of the state field is under the channel's mutex")
+		} else {
+			r.bad("Channel.closed", allFlagAccess[0], fmt.Sprintf("the state field %s is read and written by concurrent senders, receivers and closers with no lock (%d unsynchronised accesses): a data race by construction", fPhase.Name(), len(allFlagAccess)))
+		}
+	} else if fClosed == nil {
 		r.ok("Channel.closed", ch.Obj().Pos(), "no plain boolean closed flag")
 	} else if isNamed(fClosed.Type(), "sync/atomic", "Bool") {
 		r.ok("Channel.closed", fClosed.Pos(), "the closed flag is an atomic.Bool")
